@@ -661,7 +661,5 @@ func Run(c *corr.Ctx) {
 	for i := 0; i < c.N(200, 10000); i++ {
 		g.tunnelMalformed(fmt.Sprintf("tunnel-malformed-%d", i))
 	}
-	if !c.Quick() {
-		runE2E(c, g)
-	}
+	runE2E(c, g)
 }
